@@ -105,7 +105,7 @@ fn out_cells3(r: Result<Vec<(f64, f64, f64)>, u8>) -> Vec<Cell> {
     }
 }
 fn out_cells3_opt(r: Result<Vec<(Option<f64>, Option<f64>, Option<f64>)>, u8>) -> Vec<Cell> {
-    let c = |x: Option<f64>| match x { Some(v) => Cell::F(v), None => Cell::Null };
+    let c = |x: Option<f64>| match x { Some(v) if v.is_nan() => Cell::Err, Some(v) => Cell::F(v), None => Cell::Null };   // Some(NaN) is not a null (DESIGN 5.4)
     match r {
         Ok(v) => v.iter().flat_map(|t| [c(t.0), c(t.1), c(t.2)]).collect(),
         Err(k) => vec![Cell::Panic(k)],
